@@ -37,6 +37,10 @@ def _pretty(c):
             d[x] = _s(v)
         elif x == "vals":
             d[x] = [dict(t=e["t"], n=e["n"], b=_hex(e["b"])) for e in v]
+        elif x == "steps":
+            d[x] = [dict(op=st["op"], vals=[dict(t=e["t"], n=e["n"], b=_hex(e["b"])) for e in st["vals"]], b=_hex(st["b"]), ix=st["ix"]) for st in v]
+        elif x in ("outs", "outs2"):
+            d[x] = [_hex(o) for o in v]
         elif isinstance(v, list) and x != "idx":
             d[x] = _hex(v)
         else:
@@ -81,6 +85,17 @@ def _vkey(rec, variant=None, exp=None):
         return "random-hash-%s-digest" % ("negative" if rec["md5"][0] >= 128 else "positive")
     if k == "ord":
         return "ordered-less"
+    if k == "rkseq":
+        if rec.get("err"):
+            return "routing-key-seq-%s-error" % rec["via"]
+        gets = [i for i, st in enumerate(rec["steps"]) if st["op"] == "get"]
+        if isinstance(exp, list) and rec["outs"] == exp:
+            return "routing-key-seq-%s-changed-while-held" % rec["via"]
+        for n, gi in enumerate(gets):
+            if not isinstance(exp, list) or n >= len(rec["outs"]) or n >= len(exp) or rec["outs"][n] != exp[n]:
+                prev = rec["steps"][gi - 1]["op"] if gi > 0 else "start"
+                return "routing-key-seq-%s-after-%s" % (rec["via"], prev)
+        return "routing-key-seq-%s" % rec["via"]
     if k == "rk":
         if rec.get("err"):
             return "routing-key-%s-error" % rec["via"]
@@ -110,6 +125,12 @@ def _describe(rec, exp):
         return "RandomPartitioner token of key %s (md5 %s): code %s, Cassandra %s" % (_hex(rec["key"]), _hex(rec["md5"]), _s(rec["out"]), _s(exp))
     if k == "ord":
         return "order-preserving: %s < %s: code %s (token string %s), required %s" % (_hex(rec["a"]), _hex(rec["b"]), rec["less"], _hex(rec["sa"]), exp)
+    if k == "rkseq":
+        script = " ".join(st["op"] + ("(" + ",".join(_hex(c["b"]) if c["t"] not in ("int", "bigint", "boolean") else str(c["n"]) for c in st["vals"]) + ")" if st["vals"] else
+                                      "(" + _hex(st["b"]) + ")" if st["op"] == "route" else "") for st in rec["steps"])
+        return "one %s (via %s, key positions %s), script: %s: keys at the gets: code %s (re-read later %s) err=%r, required %s" % (
+            rec["obj"], rec["via"], rec["idx"], script, [_hex(o) for o in rec["outs"]], [_hex(o) for o in rec["outs2"]],
+            rec.get("err"), [_hex(o) for o in exp] if isinstance(exp, list) else exp)
     if k == "rk":
         return "routing key via %s for values %s idx %s: code %s err=%r, required %s" % (
             rec["via"], json.dumps(rec["vals"])[:300], rec["idx"], _hex(rec["out"]), rec.get("err"), _hex(exp))
@@ -127,7 +148,7 @@ def _trivial(rec):
 
 
 def _input_id(rec):
-    return json.dumps([rec["k"]] + [rec.get(x) for x in ("p", "key", "a", "b", "vals", "idx", "via")], sort_keys=True)
+    return json.dumps([rec["k"]] + [rec.get(x) for x in ("p", "key", "a", "b", "vals", "idx", "via", "obj", "steps")], sort_keys=True)
 
 
 # ------------------------------------------------------------------ TLC sides
@@ -196,7 +217,8 @@ def run(ctx):
     # ---- 1. generators (the ASSUMEd published vectors of Token.tla are checked by every TLC start)
     jobs = [("MC_Token_keys.cfg", dict(VF_SHARD=i, VF_NSHARD=nproc, VF_STRIDE=stride, VF_SEED=ctx.seed), "gen_keys_%d" % i)
             for i in range(nproc)]
-    jobs += [("MC_Token_rk.cfg", {}, "gen_rk"), ("MC_Token_cmp.cfg", {}, "gen_cmp"), ("MC_Token_special.cfg", {}, "gen_special")]
+    jobs += [("MC_Token_rk.cfg", {}, "gen_rk"), ("MC_Token_cmp.cfg", {}, "gen_cmp"), ("MC_Token_special.cfg", {}, "gen_special"),
+             ("MC_Token_seq.cfg", {}, "gen_seq")]
     # the first TLC run creates the scratch copy of spec/ (not safe to do concurrently)
     cases, r0 = _gen(ctx, "MC_Token_ord.cfg", {}, "gen_ord")
     gen_states = r0.distinct
@@ -262,6 +284,8 @@ def run(ctx):
             ok, exp = (r["out"] == c["tok"] and r["out2"] == c["tok"]), c["tok"]
         elif k == "rk":
             ok, exp = (r["err"] == "" and r["out"] == c["out"] and r["out2"] == c["out"]), c["out"]
+        elif k == "rkseq":
+            ok, exp = (r["err"] == "" and r["outs"] == c["outs"] and r["outs2"] == c["outs"]), c["outs"]
         elif k == "cmp":
             ok, exp = r["less"] == c["less"], c["less"]
             if ok and not r["panic"] and r["ra"] != c["a"]:
@@ -280,7 +304,8 @@ def run(ctx):
     ctx.log("token cases executed: %d results" % len(res))
     picks = (lambda c: c["k"] == "key" and len(c["key"]) == 29 and len(set(c["key"])) > 1 and max(c["key"]) >= 128,
              lambda c: c["k"] == "rk" and len(c["idx"]) == 2 and c["idx"][0] != 1 and len(c["out"]) < 40,
-             lambda c: c["k"] == "cmp" and c["p"] == "rnd" and c["a"] != c["b"] and len(c["a"]) > 20)
+             lambda c: c["k"] == "cmp" and c["p"] == "rnd" and c["a"] != c["b"] and len(c["a"]) > 20,
+             lambda c: c["k"] == "rkseq" and c["obj"] == "query" and len(c["idx"]) == 2 and len(c["steps"]) == 6 and c["steps"][2]["op"] == "route")
     for pick in picks:
         for c in cases:
             if pick(c):
@@ -323,7 +348,7 @@ def run(ctx):
     for r, _ in tagged:
         vk[r["k"]] = vk.get(r["k"], 0) + 1
     ctx.log("recorded vectors judged by TLC: %d %s, rejected %d" % (nval, vk, len(bad)))
-    for kind in ("rnd", "cmpk", "rk"):
+    for kind in ("rnd", "cmpk", "rk", "rkseq"):
         for r, _ in tagged:
             if r["k"] == kind:
                 samples.append(dict(direction="code->spec", record=_pretty(r)))
@@ -346,7 +371,7 @@ def run(ctx):
         held_values="every routing key / token returned by the real code is held and read again after >= %d later calls "
                     "(sequential) or after yielding to 7 other goroutines (%d concurrent observations)" % (8, len(conc)),
         murmur_tail_block_classes_covered=len(tails), mismatching_classes=sorted(byk.keys()),
-        samples=samples[:6],
+        samples=samples[:8],
     )
     ctx.assumptions += [
         "a routing key is judged while the harness holds it like a caller does (until it is hashed); the hold window is 8 later "
